@@ -264,6 +264,25 @@ let () =
     | ["AMHLKEY"; l; k] ->
       (match amhl_verify_lock_key orc (bytes_of_hex l) (bytes_of_hex k) with
        | Some b -> print_string ("= ok " ^ (if b then "T" else "F") ^ "\n") | None -> print_string "= none\n")
+    | "ASRC" :: syms ->
+      (* symbols of a SOURCE (output of parsing.get_symbols), each hex-encoded utf-8 -> Assembler.assemble_r *)
+      let unhex h = if h = "-" then "" else ascii_of_bytes (bytes_of_hex h) in
+      (match assemble_r fl2_oracle (List.map (fun h -> coq_of_string (unhex h)) syms) with
+       | Ok b -> print_string ("= ok " ^ hex_of_bytes b ^ "\n")
+       | Err -> print_string "= err\n"
+       | Unm -> print_string "= unm\n")
+    | ["FLT"; h] ->
+      let pos p = str_of_z (Zpos p) in
+      let sg s = if s then "-" else "+" in
+      (match classify_bytes (bytes_of_hex h), roundtrip_bytes (bytes_of_hex h) with
+       | Some c, Some back ->
+         let d = (match c with
+           | FZero s -> "zero" ^ sg s
+           | FInf s -> "inf" ^ sg s
+           | FNan (s, pl) -> "nan" ^ sg s ^ ":" ^ pos pl
+           | FFin (s, m, e) -> "fin" ^ sg s ^ ":" ^ pos m ^ ":" ^ str_of_z e) in
+         print_string ("= ok " ^ d ^ " " ^ hex_of_bytes back ^ "\n")
+       | _, _ -> print_string "= none\n")
     | ["MT"; packed; path] ->
       let h b = (match orc PSha256 [b] with OOk [x] -> x | _ -> failwith "sha256 oracle") in
       let p = List.filter_map (fun c -> match c with 'L' -> Some L | 'R' -> Some R | _ -> None) (List.of_seq (String.to_seq path)) in
